@@ -12,6 +12,7 @@ import importlib
 import logging
 import marshal
 import math
+import os
 import sys
 import tokenize as tk
 
@@ -36,6 +37,11 @@ from pycel.lib.function_info import func_status_msg
 
 
 ADDR_FUNCS_NAMES = '_R_', '_C_', '_REF_'
+
+# Verification hook (guarded by the environment variable PYCEL_VERIF): when a
+# harness sets this to a callable, every read a compiled formula makes through
+# _C_ / _R_ is reported as (formula, address read).
+_VERIF_READ_TRACE = None
 
 
 class FormulaParserError(PyCelException):
@@ -897,6 +903,15 @@ class ExcelFormula:
             name_space['_R_'] = evaluate_range
             name_space['_REF_'] = AddressRange.create
             name_space['pi'] = math.pi
+
+            if _VERIF_READ_TRACE is not None and os.environ.get('PYCEL_VERIF'):
+                def _verif_traced(reader, tracer=_VERIF_READ_TRACE):
+                    def traced(address):
+                        tracer(excel_formula, address)
+                        return reader(address)
+                    return traced
+                name_space['_C_'] = _verif_traced(evaluate)
+                name_space['_R_'] = _verif_traced(evaluate_range)
 
             # function to fixup the operands
             name_space['excel_operator_operand_fixup'] = \
